@@ -392,8 +392,12 @@ def ex_trend(c):
     cx, cy = np.array(x0, copy=True), np.array(y0, copy=True)
     bx, by = cx.tobytes(), cy.tobytes()
     w = Weaver(cx, cy)
+    if "pre" in c:       # the Weaver is built on (rx0, ry0) and brought to (x, y) by the `pre` operations before the request
+        w = Weaver(arr(c["rx0"]), arr(c["ry0"]))
+        for op in c["pre"]:
+            wcall(w, op)
     woc, _ = guarded(lambda: w.trend(f) if dflt else w.trend(f, normalized=c["normalized"]))
-    e = dict(c)
+    e = {k: v for k, v in c.items() if k != "pre"}
     e.update(outcome=oc, outx=vec(o[0]) if oc == "ok" else [], outy=vec(o[1]) if oc == "ok" else [], fargs=fxs(seen),
              w_outcome=woc, caller_modified=bool(cx.tobytes() != bx or cy.tobytes() != by))
     e.update(wfields(w, woc))
